@@ -308,6 +308,17 @@ fn check_report(rep: &str, m: &Maps, tb: &Tables, via: &str, c11: bool, out: &mu
         let tot_o: Vec<i64> = p.totals.iter().filter(|(_, w, _)| w.to_lowercase().starts_with('o')).map(|x| x.2).collect();
         let has = |items: &Vec<(usize, Files)>| items.iter().any(|(_, fs)| fs.iter().any(|(_, l)| !l.is_empty()));
         let (v_has, o_has, q_has) = (has(&m.v), has(&m.o), has(&m.q));
+        // entries listed before the first pattern section are entries of the part they stand in (the first part present)
+        let orphans = p.orphans.len() as i64;
+        let (shown_v, shown_o) = if orphans == 0 {
+            (shown_v, shown_o)
+        } else if via == "vulnerability_report" || (via == "generate_report" && v_has) {
+            (shown_v + orphans, shown_o)
+        } else if via == "optimization_report" || (via == "generate_report" && o_has) {
+            (shown_v, shown_o + orphans)
+        } else {
+            (shown_v, shown_o)
+        };
         let v_part = via == "vulnerability_report" || (via == "generate_report" && v_has);
         let o_part = via == "optimization_report" || (via == "generate_report" && o_has);
         if v_part {
@@ -709,6 +720,15 @@ pub fn c11_c12(property: &str, tier: Tier) -> i32 {
     }
     let _ = std::fs::remove_dir_all(&dir);
     run.merge_violations(vs);
+    // (C12) the command-line program: parts, totals and headings of the report are those of THIS run
+    if !c11 {
+        let (bvs, bruns) = crate::binx::report_follows_this_run(property);
+        run.merge_violations(bvs);
+        run.set("binary_runs_in_shared_working_directories", bruns);
+        if bruns == 0 {
+            run.machinery("SOLSTAT_BIN (unhooked binary) not found".into());
+        }
+    }
     run.set("states", space.len() as u64);
     run.set("transitions", renderings);
     run.set("traces_validated_against_impl", validated);
@@ -970,6 +990,11 @@ pub fn c13(tier: Tier) -> i32 {
     run.merge_violations(dl.violations);
     for e in dl.machinery {
         run.machinery(e);
+    }
+    {
+        let (bvs, bruns) = crate::binx::report_follows_this_run("C13");
+        run.merge_violations(bvs);
+        run.set("binary_runs_in_shared_working_directories", bruns);
     }
     run.set("states", stats.1 + dl.states);
     run.set("transitions", stats.1 + dl.transitions);
